@@ -77,6 +77,24 @@ fn render_case(c: &SCase) -> (Program, Rendered) {
         prog.code.insert(0, Item::MacroDef { name: "m2".into(), params: vec!["b".into()], body_src: " m1 (b) nop ".into() });
         prog.code.insert(0, Item::MacroDef { name: "m1".into(), params: vec!["a".into()], body_src: " mov a,a nop ".into() });
     }
+    // one program in six begins with an instruction that jumps to its own line three times: every execution of it is
+    // announced, also when the next line is the same line
+    if c.layout_choices.get(6).map(|x| x % 6 == 0).unwrap_or(false) {
+        use crate::asm::{ImmKind, Insn, Opd, R16};
+        let start_idx = prog.code.iter().position(|i| matches!(i, Item::Label(n) if n == "start")).unwrap_or(0);
+        let mn = ["loop", "loope", "loopz"][c.layout_choices.get(7).map(|x| *x as usize % 3).unwrap_or(0)];
+        let ins = vec![
+            Item::Ins(Insn::new("push", vec![Opd::R16(R16::CX)])),
+            Item::Ins(Insn::new("mov", vec![Opd::R16(R16::CX), Opd::Imm(3, ImmKind::SW)])),
+            Item::Ins(Insn::new("cmp", vec![Opd::R16(R16::CX), Opd::R16(R16::CX)])),
+            Item::Label("selfj".into()),
+            Item::Ins(Insn::new(mn, vec![Opd::Name("selfj".into())])),
+            Item::Ins(Insn::new("pop", vec![Opd::R16(R16::CX)])),
+        ];
+        for (k, it) in ins.into_iter().enumerate() {
+            prog.code.insert(start_idx + 1 + k, it);
+        }
+    }
     let layout = Layout { choices: c.layout_choices.clone(), comments: c.comments, trailing_newline: true, pack_lines: false };
     let r = render_program(&prog, &layout);
     (prog, r)
@@ -90,7 +108,12 @@ fn eval(c: &SCase) -> CaseOutcome {
     let cfg = RunCfg { interpreted: c.interpreted, script: &c.script, lines: &lines, max_steps: 20_000, input_lines: None, buf_fill: None };
     let rr = ref_run(&flat, &image, &cfg, &Quirks::none());
     let exp = normalise(&rr.events);
-    let stdin = crate::c17::script_bytes(&c.script);
+    let mut stdin = crate::c17::script_bytes(&c.script);
+    // one script in four ends without a line terminator: the last line is a line all the same (an empty one would not be)
+    let unterminated = c.layout_choices.get(5).map(|x| x % 4 == 0).unwrap_or(false) && c.script.last().map(|x| !x.text().is_empty()).unwrap_or(false);
+    if unterminated {
+        stdin.pop();
+    }
     // output cap: 64 KiB + 4x the expected size (the signature of a prompt spinning on end of input)
     let exp_size: usize = exp.iter().map(|e| match e { Ev::Mem(v) => v.len() * 4 + 8, Ev::Regs(_) => 160, Ev::Chars(v) => v.len(), _ => 60 }).sum();
     let cap = (64 << 10) + 4 * exp_size;
@@ -135,6 +158,12 @@ fn eval(c: &SCase) -> CaseOutcome {
     }
     if rr.events.iter().any(|e| matches!(e, Ev::Int3(_))) {
         classes.push("c20/int3".into());
+    }
+    if unterminated && rr.stdin_used == c.script.len() {
+        classes.push("c20/last-line-without-terminator-consumed".into());
+    }
+    if prog.code.iter().any(|i| matches!(i, Item::Label(n) if n == "selfj")) && rr.events.iter().filter(|e| matches!(e, Ev::About(_))).count() >= 6 {
+        classes.push("c20/self-targeting-jump-stepped".into());
     }
     let tf_toggled = rr.events.iter().any(|e| matches!(e, Ev::TrapNote)) && rr.trace.len() > rr.prompts_before.len();
     let nt = (n_print >= 1 && n_next >= 3) || rr.stop == Stop::EofAtPrompt || tf_toggled;
@@ -307,4 +336,6 @@ pub fn run(ctx: &Ctx) {
     ctx.require_class("c20/stop/EofAtPrompt", 20);
     ctx.require_class("c20/stop/Quit", 10);
     ctx.require_class("c20/stop/Halt", 50);
+    ctx.require_class("c20/self-targeting-jump-stepped", 20);
+    ctx.require_class("c20/last-line-without-terminator-consumed", 10);
 }
